@@ -67,7 +67,18 @@ static const struct spec SR[] = { { "look", NULL, 0 }, { "scan%$", "%$", 0 }, { 
 static const struct spec* WR[3] = { IW, FW, SW };  static int NWR[3];
 static const struct spec* RD[3] = { IR, FR, SR };  static int NRD[3];
 
-static const char* SEP[] = { ", ", " " };
+/* separators of the concatenated sequences: literal text before / between / after the conversions.
+** The first two contain white space (a white-space directive for scanf); the others do not, so that
+** a File reader really has to consume them; the last two put literals before and after as well. */
+struct sepdef { const char* pre; const char* sep; const char* post; };
+static const struct sepdef SEPS[] = {
+  { "", ", ", "" }, { "", " ", "" },
+  { "", ",", "" }, { "", ";", "" }, { "", "|", "" }, { "", "::", "" }, { "", "=>", "" },
+  { "a=", ";b=", ";" }, { "x:", ",y:", "" },
+};
+#define NSEP ((int)(sizeof SEPS / sizeof SEPS[0]))
+#define NSEP_WS 2                      /* the first NSEP_WS entries are the white-space separators */
+static int sep_framed(int si) { return SEPS[si].pre[0] || SEPS[si].post[0]; }
 
 #define STRW 320
 
@@ -262,9 +273,9 @@ static const char* mkcase(const struct value* a, const struct value* b, const st
     else if (vs[k]->type == T_FLOAT) snprintf(o, 200, "Float %.17g (%a)", vs[k]->f, vs[k]->f);
     else { char p[180]; pretty(p, sizeof p, vs[k]->s); snprintf(o, 200, "String \"%s\"", p); }
   }
-  char sp[16] = ""; if (b) pretty(sp, sizeof sp, SEP[sepi]);
-  snprintf(casefull, sizeof casefull, "%s | %s -> %s via %s at position %d: %s%s%s%s%s", caseid, w->name, r->name, skname[sk], start,
-    va, b ? " then \"" : "", b ? sp : "", b ? "\" then " : "", vb);
+  char sp[48] = ""; if (b) { char raw_[32]; snprintf(raw_, sizeof raw_, "%s<1>%s<2>%s", SEPS[sepi].pre, SEPS[sepi].sep, SEPS[sepi].post); pretty(sp, sizeof sp, raw_); }
+  snprintf(casefull, sizeof casefull, "%s | %s -> %s via %s at position %d: %s%s%s%s%s%s", caseid, w->name, r->name, skname[sk], start,
+    va, b ? " and " : "", b ? vb : "", b ? " as \"" : "", b ? sp : "", b ? "\"" : "");
   return casefull;
 }
 
@@ -330,7 +341,9 @@ static int run_case(const struct value* a, const struct value* b, const struct s
   var di0 = $I(0), df0 = $F(0.0), di1 = $I(0), df1 = $F(0.0);
   var va = mkval(a, ia, fa, sa);
   var vb = b ? mkval(b, ib, fb, sb) : NULL;
-  const char* sep = b ? SEP[sepi] : "";
+  const char* sep = b ? SEPS[sepi].sep : "";
+  const char* pre = b ? SEPS[sepi].pre : "";
+  const char* post = b ? SEPS[sepi].post : "";
   const char* filler = start ? "##" : "";
   int combined = b && w->fmt != NULL;         /* a single print_to call "<spec><sep><spec>" */
   int rcombined = b && r->fmt != NULL;        /* a single scan_from call */
@@ -356,7 +369,7 @@ static int run_case(const struct value* a, const struct value* b, const struct s
     if (e) { kase = mkcase(a, b, w, r, sk, start, sepi); vf_violation(LBL(T, w->name, wfeat, "write-raises"), kase, "writing raised %s", vf_exc_name(e)); return 1; }
     snprintf(text_b, sizeof text_b, "%s", c_str(TXT));
   }
-  snprintf(expect_text, sizeof expect_text, "%s%s%s%s", filler, text_a, sep, text_b);
+  snprintf(expect_text, sizeof expect_text, "%s%s%s%s%s%s", filler, pre, text_a, sep, text_b, post);
   size_t la = strlen(text_a), lb = strlen(text_b), ls = strlen(sep), total = strlen(expect_text);
 
   /* 2. write the sequence into the sink under test at position start */
@@ -370,7 +383,7 @@ static int run_case(const struct value* a, const struct value* b, const struct s
     ((struct File*)fo)->file = wf; out = fo;
   }
   if (combined) {
-    snprintf(fmt2, sizeof fmt2, "%s%s%s", w->fmt, sep, w->fmt);
+    snprintf(fmt2, sizeof fmt2, "%s%s%s%s%s", pre, w->fmt, sep, w->fmt, post);
     e = VF_CATCH(wpos = print_to(out, start, fmt2, va, vb));
   } else if (b) {
     e = VF_CATCH(wpos = do_write(w, out, start, a->type, va); wpos = print_to(out, wpos, sep); wpos = do_write(w, out, wpos, b->type, vb));
@@ -434,7 +447,7 @@ static int run_case(const struct value* a, const struct value* b, const struct s
   volatile int p1 = -1, p2 = -1;
   int bad = 0;
   if (rcombined) {
-    snprintf(fmt2, sizeof fmt2, "%s%s%s", r->fmt, sep, r->fmt);
+    snprintf(fmt2, sizeof fmt2, "%s%s%s%s%s", pre, r->fmt, sep, r->fmt, post);
     e = VF_CATCH(p2 = scan_from(src, start, fmt2, d0, d1));
   } else if (b) {
     e = VF_CATCH(
@@ -451,6 +464,7 @@ static int run_case(const struct value* a, const struct value* b, const struct s
   const char* ftr = a->type == T_INT ? feat_int(a->i) : a->type == T_FLOAT ? feat_float_text(text_a) : feat_str(a->s);
   /* a width-padded number (leading blanks are part of what was written) is a feature of its own */
   if (a->type != T_STR && (text_a[0] == ' ' || text_b[0] == ' ')) ftr = "width-padded";
+  else if (b && sepi >= NSEP_WS) ftr = sep_framed(sepi) ? "literals-around-conversions" : "separator-without-white-space";
   if (raw) {
     /* C semantics of %s: leading white space skipped, stops at white space, fails on nothing */
     if (rc0 < 1 || (b && rc1 < 1)) {
@@ -510,6 +524,7 @@ static int run_case(const struct value* a, const struct value* b, const struct s
 /* ---- enumeration --------------------------------------------------------------------- */
 
 static int sinks[NSK], nsinks;
+static int pairsep_cap = 6;
 static int compatible(int type, const struct spec* w, const struct spec* r, const struct value* v) {
   if (type == T_INT) {
     /* value must be in the range of the narrower of the two conversions */
@@ -555,7 +570,7 @@ static void drive(int type) {
   }
   static char phase[64]; snprintf(phase, sizeof phase, "%s", tname[type]); vf.phase = phase;
   for (int pass = 0; pass < (do_pairs ? 2 : 1); pass++) {           /* singles first, then pairs */
-    int ni = pass == 0 ? nv : np, nj = pass == 0 ? 1 : np, nsep = pass == 0 ? 1 : NEL(SEP);
+    int ni = pass == 0 ? nv : np, nj = pass == 0 ? 1 : np, nsep = pass == 0 ? 1 : NSEP;
     for (int i = 0; i < ni; i++) for (int j = 0; j < nj; j++) {
       int vi = pass == 0 ? i : (type == T_INT ? IPAIR[i] : type == T_FLOAT ? FPAIR[i] : i);
       int vj = pass == 0 ? -1 : (type == T_INT ? IPAIR[j] : type == T_FLOAT ? FPAIR[j] : j);
@@ -576,7 +591,9 @@ static void drive(int type) {
         int raw_pair = (type == T_STR && r->cls == 1 && vj >= 0);
         for (int si = 0; si < nsep; si++) for (int ki = 0; ki < nsinks; ki++) for (int start = 0; start <= 2; start += 2) {
           int sk = sinks[ki];
-          if (raw_pair && si == 0) continue;        /* "a, b" read with %s gives the token "a," - C semantics, nothing to round-trip */
+          if (raw_pair && si != 1) continue;        /* %s stops only at white space: "a,b" or "a, b" give the token "a,b" / "a," - C semantics, nothing to round-trip */
+          if (si >= NSEP_WS && pass == 1 && (i >= pairsep_cap || j >= pairsep_cap)) continue;   /* white-space-free separators: pairs from the first values of the pair grid */
+          if (sep_framed(si) && (!w->fmt || !r->fmt)) continue;   /* literals before/after need one print_to / scan_from call */
           if (vf.replay && !(wi == r_w && ri == r_r && sk == r_k && start == r_p && vi == r_i && vj == r_j && si == r_s)) continue;
           snprintf(caseid, sizeof caseid, "%c w=%d r=%d k=%d p=%d i=%d j=%d s=%d", tchar[type], wi, ri, sk, start, vi, vj, si);
           vf_set_cur("%s", caseid);
@@ -620,7 +637,7 @@ static int run_repeat(int type, const struct value* vals, const struct spec* w, 
   var di[4] = { $I(0), $I(0), $I(0), $I(0) }; var df[4] = { $F(0.0), $F(0.0), $F(0.0), $F(0.0) };
   var obj[3], dst[4];
   int n = pat_n[q];
-  const char* sep = SEP[sepi];
+  const char* sep = SEPS[sepi].sep;
   const char* filler = start ? "##" : "";
   char label_feat[48]; snprintf(label_feat, sizeof label_feat, "repeated-argument%s", q == 4 ? "-destination" : "");
   char kase[700];
@@ -631,7 +648,7 @@ static int run_repeat(int type, const struct value* vals, const struct spec* w, 
       else if (type == T_FLOAT) snprintf(d[k], 120, "%.17g", vals[k].f);
       else { char pp[100]; pretty(pp, sizeof pp, vals[k].s); snprintf(d[k], 120, "\"%s\"", pp); }
     }
-    char sp[16]; pretty(sp, sizeof sp, sep);
+    char sp[48]; { char raw_[32]; snprintf(raw_, sizeof raw_, "%s<1>%s<2>%s", SEPS[sepi].pre, sep, SEPS[sepi].post); pretty(sp, sizeof sp, raw_); }
     snprintf(kase, sizeof kase, "%s | %s -> %s via %s at position %d, argument list %s joined by \"%s\": x=%s y=%s z=%s", caseid, w->name, r->name, skname[sk], start, pat_name[q], sp, d[0], d[1], d[2]);
   }
   if (vf.replay) printf("replaying %s\n", kase);
@@ -645,13 +662,17 @@ static int run_repeat(int type, const struct value* vals, const struct spec* w, 
     if (e) { vf_violation(LBL(T, w->name, label_feat, "write-raises"), kase, "writing raised %s", vf_exc_name(e)); return 1; }
     snprintf(rtext[k], sizeof rtext[k], "%s", c_str(TXT));
   }
-  size_t o = (size_t)snprintf(expect_text, sizeof expect_text, "%s", filler);
-  char fmtw[96] = "", fmtr[96] = "";
+  size_t o = (size_t)snprintf(expect_text, sizeof expect_text, "%s%s", filler, SEPS[sepi].pre);
+  char fmtw[128] = "", fmtr[128] = "";
+  snprintf(fmtw, sizeof fmtw, "%s", SEPS[sepi].pre); snprintf(fmtr, sizeof fmtr, "%s", SEPS[sepi].pre);
   for (int k = 0; k < n; k++) {
     o += (size_t)snprintf(expect_text + o, sizeof expect_text - o, "%s%s", k ? sep : "", rtext[pat_obj[q][k]]);
     snprintf(fmtw + strlen(fmtw), sizeof fmtw - strlen(fmtw), "%s%s", k ? sep : "", w->fmt);
     snprintf(fmtr + strlen(fmtr), sizeof fmtr - strlen(fmtr), "%s%s", k ? sep : "", r->fmt);
   }
+  snprintf(expect_text + o, sizeof expect_text - o, "%s", SEPS[sepi].post);
+  snprintf(fmtw + strlen(fmtw), sizeof fmtw - strlen(fmtw), "%s", SEPS[sepi].post);
+  snprintf(fmtr + strlen(fmtr), sizeof fmtr - strlen(fmtr), "%s", SEPS[sepi].post);
   size_t total = strlen(expect_text);
 
   FILE* wf = NULL; char* membuf = NULL; size_t memlen = 0; var out;
@@ -768,9 +789,10 @@ static void drive_repeat(int type) {
       if (raw) for (int t = 0; t < 3; t++) if (!*vals[t].s || strpbrk(vals[t].s, " \n\t")) ok = 0;
       if (!ok) continue;
       snprintf(phase, sizeof phase, "%s/%s", tname[type], r->name); vf.phase = phase;
-      for (int q = 0; q < NPAT; q++) for (int si = 0; si < NEL(SEP); si++) for (int ki = 0; ki < nsinks; ki++) for (int start = 0; start <= 2; start += 2) {
+      for (int q = 0; q < NPAT; q++) for (int si = 0; si < NSEP; si++) for (int ki = 0; ki < nsinks; ki++) for (int start = 0; start <= 2; start += 2) {
         int sk = sinks[ki];
-        if (raw && si == 0) continue;
+        if (raw && si != 1) continue;
+        if (!(si < NSEP_WS || si == 2 || si == 7)) continue;      /* repeated-argument lists: ", " " " "," and the framed "a=..;b=..;" */
         if (vf.replay && !(wi == r_w && ri == r_r && sk == r_k && start == r_p && i == r_i && j == r_j && si == r_s && q == r_q)) continue;
         snprintf(caseid, sizeof caseid, "Q%c w=%d r=%d k=%d p=%d i=%d j=%d s=%d q=%d", tchar[type], wi, ri, sk, start, i, j, si, q);
         vf_set_cur("%s", caseid);
@@ -797,6 +819,7 @@ int main(int argc, char** argv) {
   if (strstr(sk, "tmp")) sinks[nsinks++] = SK_TMP;
   if (strstr(sk, "mem")) sinks[nsinks++] = SK_MEM;
 
+  pairsep_cap = (int)vf_param_i("pairsepvals", 6);
   build_ints(full); build_floats(full);
   build_strings((int)vf_param_i("strlen", 3), (int)vf_param_i("pairlen", 1));
 
@@ -812,7 +835,7 @@ int main(int argc, char** argv) {
 
   vf.states = 0; vf.transitions = 0;
   vf_extra("repeated_argument_cases", "%" PRIu64, n_repeat_cases);
-  vf_extra("grid", "\"%d Int values (%d in pairs), %d Float values (%d in pairs), %d strings (%d in pairs); %d/%d/%d writers and %d/%d/%d readers; sinks %s; start positions 0 and 2; separators \\\", \\\" and \\\" \\\"\"",
+  vf_extra("grid", "\"%d Int values (%d in pairs), %d Float values (%d in pairs), %d strings (%d in pairs); %d/%d/%d writers and %d/%d/%d readers; sinks %s; start positions 0 and 2; separators: 2 with white space, 5 without, 2 with literals before and after\"",
     NIV, NIPAIR, NFV, NFPAIR, NSV, NSPAIR, NWR[0], NWR[1], NWR[2], NRD[0], NRD[1], NRD[2], sk);
   vf_finish();
   return 0;
